@@ -29,7 +29,8 @@ pub struct Case {
     pub combine: Vec<(u16, u16, u8)>,
     /// values (quarters) of every variable, per sample
     pub samples: Vec<Vec<i8>>,
-    /// 0 = none, 1 = affine, 2 = projective (w a power of two)
+    /// 0 = none, 1 = affine, 2 = projective (w a power of two),
+    /// 3 = projective with a general bottom row (denominator stays positive)
     pub xform: u8,
     pub mat: Vec<i8>,
     /// order in which variables are inserted into ShapeVars
@@ -120,11 +121,24 @@ fn matrix(case: &Case) -> Option<Matrix4<f32>> {
     } else {
         1.0
     };
+    // general bottom row: |p x + q y + r z| <= 3 * 3.5 / 8 < 2 <= w on every sample and box
+    let b = |k: usize| {
+        if case.xform == 3 {
+            [0.0, 0.0625, -0.0625, 0.125, -0.125][case.mat[(9 + k) % case.mat.len()].rem_euclid(5) as usize]
+        } else {
+            0.0
+        }
+    };
+    let w = if case.xform == 3 {
+        [2.0, 4.0][case.mat[0].rem_euclid(2) as usize]
+    } else {
+        w
+    };
     Some(Matrix4::new(
         q(0), q(1), q(2), t(0), //
         q(3), q(4), q(5), t(1), //
         q(6), q(7), q(8), t(2), //
-        0.0, 0.0, 0.0, w,
+        b(0), b(1), b(2), w,
     ))
 }
 
@@ -159,14 +173,16 @@ fn run<F: MathFunction>(case: &Case, cx: &mut Cx) -> CheckResult {
         let (tx, ty, tz) = match &mat {
             None => (x, y, z),
             Some(m) => {
-                // exact in f64 for these dyadic entries
-                let r = |i: usize| {
-                    (m[(i, 0)] as f64 * x as f64
+                // numerator and denominator are exact in f32 and f64 for these
+                // dyadic entries; one correctly rounded division (double rounding
+                // through f64 is innocuous for a quotient of two f32 values)
+                let row = |i: usize| {
+                    m[(i, 0)] as f64 * x as f64
                         + m[(i, 1)] as f64 * y as f64
                         + m[(i, 2)] as f64 * z as f64
-                        + m[(i, 3)] as f64)
-                        / m[(3, 3)] as f64
+                        + m[(i, 3)] as f64
                 };
+                let r = |i: usize| row(i) / row(3);
                 (r(0) as f32, r(1) as f32, r(2) as f32)
             }
         };
@@ -350,8 +366,16 @@ fn run<F: MathFunction>(case: &Case, cx: &mut Cx) -> CheckResult {
                 out[i].v
             );
             if linear {
-                // d/d(world axis a) = sum over model axes r of c_r * M[r][a] / w
+                // model_r = num_r / den, so d model_r / d(world axis a)
+                //   = (M[r][a] * den - num_r * M[3][a]) / den^2
                 let m = mat.unwrap_or(Matrix4::identity());
+                let row = |i: usize| {
+                    m[(i, 0)] as f64 * x as f64
+                        + m[(i, 1)] as f64 * y as f64
+                        + m[(i, 2)] as f64 * z as f64
+                        + m[(i, 3)] as f64
+                };
+                let den = row(3);
                 let mut k = 0;
                 let mut c = [0.0f64; 3];
                 for a in 0..3 {
@@ -361,11 +385,20 @@ fn run<F: MathFunction>(case: &Case, cx: &mut Cx) -> CheckResult {
                     }
                 }
                 for a in 0..3 {
-                    let want_d: f64 = (0..3)
-                        .map(|r| c[r] * m[(r, a)] as f64 / m[(3, 3)] as f64)
+                    let terms: Vec<f64> = (0..3)
+                        .map(|r| c[r] * (m[(r, a)] as f64 * den - row(r) * m[(3, a)] as f64) / (den * den))
+                        .collect();
+                    let want_d: f64 = terms.iter().sum();
+                    let scale: f64 = (0..3)
+                        .map(|r| {
+                            c[r].abs() * ((m[(r, a)] as f64 * den).abs() + (row(r) * m[(3, a)] as f64).abs()) / (den * den)
+                        })
                         .sum();
+                    if m[(3, a)] != 0.0 {
+                        cx.ev.count("grad_projective_partials");
+                    }
                     ensure!(
-                        (out[i].d(a) as f64 - want_d).abs() <= 1e-4 * (1.0 + want_d.abs()),
+                        (out[i].d(a) as f64 - want_d).abs() <= 1e-4 * (1.0 + scale),
                         "grad-transform",
                         "partial {a}: {} expected {want_d}",
                         out[i].d(a)
@@ -435,7 +468,7 @@ impl Prop for P {
             vec(-3i8..=3, 36..=36),
             vec((any::<u16>(), any::<u16>(), 0u8..5), 8..=40),
             vec(vec(-12i8..=12, 36..=36), 1..=9),
-            0u8..=2,
+            0u8..=3,
             vec(any::<i8>(), 16..=16),
             vec(any::<u16>(), 0..=40),
             (0u8..=3, any::<u16>(), any::<bool>()),
@@ -487,11 +520,11 @@ impl Prop for P {
         "generated functions: every variable of a subset of {x, y, z} plus 0-32 free variables multiplied by its own \
          distinct dyadic coefficient and combined in a generated order by add / min / max (the traversal, hence slot, order \
          is randomised); ShapeVars filled in a generated order plus unrelated extras; transform none / affine / projective \
-         with dyadic entries (exact); 1-9 samples; interpreter or JIT. Oracle: Context::eval with an explicit map whose \
+         (uniform w, or a general bottom row with a positive denominator) with dyadic entries; 1-9 samples; interpreter or JIT. Oracle: Context::eval with an explicit map whose \
          X, Y, Z are the exactly transformed position and each free variable its own value, compared with == through \
          every entry point (eval, eval_with_transform, eval_with_vars, eval_with_transform_and_vars, eval_raw, bulk with \
          scalar variables and with per-sample arrays), interval results must contain it, gradient value equals it and, \
-         for purely additive functions, the partials equal the coefficient-weighted matrix columns; a missing variable must \
+         for purely additive functions, the partials equal the coefficient-weighted derivative of the projective map (quotient rule); a missing variable must \
          be reported by identity, a needed array of the wrong length is an error, extras are ignored; after simplification \
          the child keeps the numbering and the value at the traced point. Non-trivial = at least 3 free variables whose \
          slot order differs from their index order."
